@@ -27,14 +27,36 @@ def mapperOfJson (j : Json) : Except String TMapper :=
       pure ((← p[0]!.getStr?), (← p[1]!.getStr?))
     pure (.rename d)
 
+def optMapper (j : Json) (k : String) : Except String (Option TMapper) :=
+  match optField j k with
+  | none => pure none
+  | some .null => pure none
+  | some x => do pure (some (← mapperOfJson x))
+
+/-- `mapperDecls`: per class the declared attributes; the model resolves the one the trusted path reads -/
+def mapDeclsOfJson (x : Json) : Except String (List (String × MapperDecl)) := do
+  (← x.getArr?).toList.mapM fun kv => do
+    let p ← kv.getArr?
+    let d := p[1]!
+    pure ((← p[0]!.getStr?), { ser := ← optMapper d "ser", deser := ← optMapper d "deser",
+                               baseSer := ← optMapper d "baseSer", baseDeser := ← optMapper d "baseDeser" })
+
 def mapEnvOfJson (j : Json) : Except String (MapEnv × Bool) :=
-  match optField j "mappers" with
-  | none => pure (noMappers, true)
-  | some x => do
+  match optField j "mapperDecls", optField j "mappers" with
+  | some x, _ => do
+    let tbl ← mapDeclsOfJson x
+    pure (mapEnvOf tbl, tbl.isEmpty)
+  | none, none => pure (noMappers, true)
+  | none, some x => do
     let tbl ← (← x.getArr?).toList.mapM fun kv => do
       let p ← kv.getArr?
       pure ((← p[0]!.getStr?), (← mapperOfJson p[1]!))
     pure (fun n => (lookup n tbl).getD .none, tbl.all fun p => p.2.isNone)
+
+def chainedOfJson (j : Json) : Except String Bool :=
+  match optField j "mapperDecls" with
+  | none => pure false
+  | some x => do pure ((← mapDeclsOfJson x).any fun p => p.2.chained)
 
 def verdictStr : Verdict → String
   | .raises => "raises" | .no => "no" | .lvl .flat => "flat" | .lvl .nested => "nested"
@@ -60,7 +82,8 @@ def run (j : Json) : Except String Json := do
                    ("declDefects", strs (declDefects cls)),
                    ("docIssues", strs (if mapperFree then docIssues opts cls d
                                         else (docIssues opts cls (untrV Mp cls d) ++ docIssues opts cls d).eraseDups)),
-                   ("cascade", .bool (cascades Mp [] cls)), ("eligible", .bool (eligible Mp cls))]
+                   ("cascade", .bool (cascades Mp [] cls)), ("eligible", .bool (eligible Mp cls)),
+                   ("baseChain", .bool (← chainedOfJson j))]
     let tru := deserializeTrusted Mp O opts cls d
     out := out ++ [("trusted", resToJson tru)]
     if mapperFree then
